@@ -77,4 +77,17 @@ var props = map[string]*propCfg{
 			"the rollback clause is asserted when exactly one step was refused in place at an intermediate state and every other step succeeded",
 		}, commonAssumptions...),
 	},
+	"C07": {
+		Harness: "hrn", Level: "exploration",
+		QuickRuns: 3000, QuickBudgetS: 90, ThoroughRuns: 300000, ThoroughBudgetS: 1200,
+		WatchdogSlackS: 120, DetSeedsQuick: 20, DetSeedsThorough: 200,
+		Rule: "one run = 1-4 cores (own ConsulSource each) with 1-3 concurrent callers doing 1-4 NewRunNumber calls each on one simulated Consul (counter absent / 41 / 500000), 0-2 foreign writers that atomically raise or rewrite the counter, per-request faults (500, connection error, response lost after apply, slow) at 0/5/20 %, a core dying at a drawn request before or after it was applied and being restarted; every KV request is two scheduling points; non-trivial = at least two successful calls; distinct = distinct (scenario, interleaving)",
+		Real:    []string{"apricot/local.Service.NewRunNumber", "configuration/cfgbackend.ConsulSource.GetNextUInt32", "github.com/hashicorp/consul/api KV client (request building, response parsing)", "net/http client above the transport"},
+		Stub:    []string{"Consul server: in-memory KV store as http.RoundTripper (GET/PUT/cas/consistent, ModifyIndex, X-Consul-Index)", "START_ACTIVITY integration is covered by the environment harness, not here"},
+		Assumptions: append([]string{
+			"foreign writers only ever raise the counter or rewrite the same value, atomically (anything else makes uniqueness impossible by construction)",
+			"consistent reads are linearizable and cas is atomic in the simulated Consul, as documented for Consul",
+			"linearizability is decided by porcupine against a fetch-and-increase register (gaps allowed); Unknown (timeout) is counted, never reported",
+		}, commonAssumptions...),
+	},
 }
